@@ -193,7 +193,7 @@ def rand_tables(rng):
 def gen_cases(run):
     rng = run.rng
     cases = []
-    n = 2500 if run.tier == 'quick' else 15000
+    n = 2500 if run.tier == 'quick' else 60000
     for _ in range(n):
         t = rand_tables(rng)
         puts = [rng.choice(DOM) for _ in range(rng.choice([0, 1, 2, 3, 4, 6]))]
